@@ -73,25 +73,31 @@ fn c09_is_valid_duration_date_fields() {
     assert!(got == vk_valid_int([iy, im, iw, id, 0, 0, 0, 0, 0, 0]));
 }
 
-/// exactly representable integer field with |v| <= 2^42 (covers every value a valid day/hour field can take and the
-/// validity boundary 2^53 s; larger magnitudes are covered one field at a time by c09_is_valid_duration_huge_field)
-fn vk_i42() -> (FiniteF64, i128) {
-    let v: i64 = kani::any();
-    kani::assume(v >= -4_398_046_511_104 && v <= 4_398_046_511_104);
-    (FiniteF64(v as f64), v as i128)
-}
-
-// bounded: days and hours only (other fields zero), |field| <= 2^42, unwind 11 with unwinding assertions on
-// (with |field| <= 2^53, or three of the day/hour/minute/second fields symbolic at once, CBMC does not terminate in 10 min)
+// bounded: hours only (other fields zero), |field| <= 2^53, unwind 11 with unwinding assertions on
+// (days together with hours, or three of the day/hour/minute/second fields symbolic at once, do not terminate in CBMC
+// within 10 min, even with |field| <= 2^42)
 #[kani::proof]
 #[kani::unwind(11)]
-fn c09_is_valid_duration_dh_fields() {
-    let (d, id) = vk_i42();
-    let (h, ih) = vk_i42();
+fn c09_is_valid_duration_h_field() {
+    let (h, ih) = vk_i53();
     let z = FiniteF64::default();
     kani::cover!(true);
-    let got = is_valid_duration(z, z, z, d, h, z, z, z, z, z);
-    assert!(got == vk_valid_int([0, 0, 0, id, ih, 0, 0, 0, 0, 0]));
+    let got = is_valid_duration(z, z, z, z, h, z, z, z, z, z);
+    assert!(got == vk_valid_int([0, 0, 0, 0, ih, 0, 0, 0, 0, 0]));
+}
+
+// bounded: hours and minutes only (other fields zero), |field| <= 2^53, unwind 11 with unwinding assertions on
+// tier: thorough
+// timeout: 1500
+#[kani::proof]
+#[kani::unwind(11)]
+fn c09_is_valid_duration_hm_fields() {
+    let (h, ih) = vk_i53();
+    let (mi, imi) = vk_i53();
+    let z = FiniteF64::default();
+    kani::cover!(true);
+    let got = is_valid_duration(z, z, z, z, h, mi, z, z, z, z);
+    assert!(got == vk_valid_int([0, 0, 0, 0, ih, imi, 0, 0, 0, 0]));
 }
 
 // bounded: minutes and seconds only (other fields zero), |field| <= 2^53, unwind 11 with unwinding assertions on
